@@ -41,6 +41,10 @@ func kdfBy4(baseMD *digest, keyLen int, limit int) []byte {
 	remainlen := len % 64
 	if remainlen < 56 {
 		t = 56 - remainlen
+		if baseMD.nx+4 >= BlockSize {
+			// the counter crosses a block boundary: the padded data needs a second block
+			blocks = 2
+		}
 	} else {
 		t = 64 + 56 - remainlen
 		blocks = 2
